@@ -22,8 +22,9 @@ def model_check(chk, scratch, spec_dir, module, cfg, what, workers=None, timeout
 
 def emit_behaviours(chk, scratch, spec_dir, module, cfg, what, simulate=None, depth=None, seed=None,
                     timeout=600, workers=1, limit=None, **kw):
+    # (three times the wanted number are kept so that duplicates can still be removed below)
     r = vlib.run_tlc(scratch, [spec_dir], module, cfg, workers=workers, timeout=timeout, simulate=simulate,
-                     depth=depth, seed=seed, deadlock=False, **kw)
+                     depth=depth, seed=seed, deadlock=False, keep=(3 * limit if limit else None), **kw)
     if r.error and not r.behaviours:
         raise vlib.Inconclusive("TLC error while emitting behaviours from %s: %s" % (what, r.error))
     if r.violated:
